@@ -283,7 +283,7 @@ pub fn fmt_bin(
 /// Fill from the hexadecimal representation
 pub fn fill_hex(num_vars: usize, table: &mut [u64], s: &str) -> Result<(), ()> {
     debug_assert_eq!(table.len(), table_size(num_vars));
-    if !s.is_ascii() {
+    if !s.bytes().all(|b| b.is_ascii_hexdigit()) {
         return Err(());
     }
     let width = hex_str_size(num_vars);
